@@ -29,7 +29,7 @@ PROP = Property(
           + [H("c01_verify_n%d_%d_%d" % sh, "bounded", "Ok ==> preliminary_verify post and BlsSignature::verify_aggregate(msg||root, [vk_j], [sigma_j]) succeeded on exactly the contained (signature, committed key) pairs",
                ["ConcatenationProof::verify"], bound="shape: %d signatures with (%d, %d) indices" % sh, replay="custom:replay_preliminary_verify", timeout=3000, tier="thorough") for sh in [(1, 1, 0), (2, 1, 1), (2, 2, 1)]]
           + [H("c01_preliminary_verify_membership_operands", "bounded", "the Merkle membership check inside preliminary_verify receives exactly [(committed key_j, committed stake_j)] of EVERY signature in order, this proof's batch path and the avk's commitment, whatever the batch path's own shape (contract assumed by the Verus unit for the filter_map/collect expression)",
-               ["ConcatenationProof::preliminary_verify"], bound="1 signature x 1 index with an EMPTY batch path (concrete shape), symbolic stake / root", replay="custom:replay_preliminary_verify", timeout=600)]
+               ["ConcatenationProof::preliminary_verify"], bound="1 signature x 1 index with an EMPTY batch path (concrete shape), symbolic stake / root", replay="custom:replay_preliminary_verify", timeout=3000, tier="thorough")]
           + [H("c01_collect_signatures_verification_keys_in_order", "bounded", "returned (sigs, vks) == [(sigma_j, committed key_j)] in signature order (contract assumed by the Verus unit preliminary_verify)",
                ["ConcatenationProof::collect_signatures_verification_keys"], bound="2 signatures", replay="none", timeout=600)]
         )],
